@@ -293,15 +293,8 @@ def count_fn(T, LT, name, tests):
                  % (name, cond))
 
 
-def main(out):
-    T, _, TN, LT = GT.build()
-    GW.register(T, TN, LT)
-    T.out = []
-    T.join_calls = True
-    L = ["(* GENERATED by harness/gen_tried.py from %s/traph/lru_trie/lru_trie.py -- do not edit *)" % REPO,
-         "From Coq Require Import List NArith Bool Arith.", "Import ListNotations.",
-         "From Traph Require Import Bytes Consts Layout Codec GenStorage GenNode GenLinks GenTrie GenTrieW.",
-         "From Traph Require GenHelpers2.", "", PREAMBLE]
+def register(T, LT):
+    """translate everything of GenTrieD.v into T.out and register the signatures (used by gen_traph.py as well)"""
     gen_fn(T, LT, "nodes_iter", [], "tnode")
     gen_fn(T, LT, "dfs_iter", [("starting_node", "otnode", "None"), ("starting_lru", "bytes", "(@nil N)"), ("skip_childless_paths", "bool", "false")],
            "pair:tnode:bytes", defaults={"starting_node": "None", "starting_lru": "b''", "skip_childless_paths": "False"})
@@ -311,6 +304,18 @@ def main(out):
     filter_fn(T, LT, "webentity_prefix_iter", "dfs_iter", "has_webentity")
     count_fn(T, LT, "count_pages", ["is_page"])
     count_fn(T, LT, "count_crawled_pages", ["is_page", "is_crawled"])
+
+
+def main(out):
+    T, _, TN, LT = GT.build()
+    GW.register(T, TN, LT)
+    T.out = []
+    T.join_calls = True
+    L = ["(* GENERATED by harness/gen_tried.py from %s/traph/lru_trie/lru_trie.py -- do not edit *)" % REPO,
+         "From Coq Require Import List NArith Bool Arith.", "Import ListNotations.",
+         "From Traph Require Import Bytes Consts Layout Codec GenStorage GenNode GenLinks GenTrie GenTrieW.",
+         "From Traph Require GenHelpers2.", "", PREAMBLE]
+    register(T, LT)
     text = "\n".join(L + T.out) + "\n"
     old = open(out).read() if os.path.exists(out) else None
     if old != text:
